@@ -46,6 +46,7 @@ def _run_case(spec):
     clock = drive.VClock(spec.get("read_cost", 0))
     obj = drive.Objective(space, spec["table"], spec.get("script", ()), spec.get("durations", ()), clock,
                           spec.get("scalar", "float"), spec.get("default_duration", 0))
+    obj.alias_metrics = bool(spec.get("alias_metrics"))
     cons = None
     if spec.get("feasible") is not None:
         cons = [drive.Constraint(space, spec["feasible"])]
